@@ -1,10 +1,10 @@
 package msg
 
 import (
+	"google.golang.org/protobuf/types/descriptorpb"
 	"sort"
 
 	"google.golang.org/protobuf/internal/encoding/messageset"
-	"google.golang.org/protobuf/internal/strs"
 	"google.golang.org/protobuf/reflect/protoreflect"
 	"google.golang.org/protobuf/reflect/protoregistry"
 )
@@ -43,7 +43,7 @@ func ExportSchema(roots ...protoreflect.MessageDescriptor) map[string]any {
 		return map[string]any{
 			"num": int(fd.Number()), "kind": kindName(fd.Kind()), "card": card, "packed": fd.IsPacked(),
 			"pres": fd.HasPresence(), "oneof": oneof, "msg": msg, "ismap": fd.IsMap(),
-			"utf8": fd.Kind() == protoreflect.StringKind && strs.EnforceUTF8(fd), "ext": fd.IsExtension(), "lazy": lazy,
+			"utf8": utf8Validated(fd), "ext": fd.IsExtension(), "lazy": lazy,
 		}
 	}
 	visit = func(md protoreflect.MessageDescriptor) {
@@ -72,4 +72,52 @@ func ExportSchema(roots ...protoreflect.MessageDescriptor) map[string]any {
 		visit(r)
 	}
 	return out
+}
+
+// utf8Validated decides from the DECLARATION whether a string field's content must be valid UTF-8 (C13): proto3 yes,
+// proto2 no, editions: the nearest explicit features.utf8_validation on the field, the enclosing messages, the file,
+// else the edition default VERIFY.  Deliberately not computed with the library's own strs.EnforceUTF8: the oracle must
+// not share the implementation's helper (F29: that helper answered "no" for every extension of an editions file).
+// (The Google-internal proto3 option enforce_utf8 = false only matters in protolegacy builds and is not in the corpus.)
+func utf8Validated(fd protoreflect.FieldDescriptor) bool {
+	if fd.Kind() != protoreflect.StringKind {
+		return false
+	}
+	if xtd, ok := fd.(protoreflect.ExtensionTypeDescriptor); ok {
+		fd = xtd.Descriptor()
+	}
+	switch fd.ParentFile().Syntax() {
+	case protoreflect.Proto2:
+		return false
+	case protoreflect.Proto3:
+		return true
+	}
+	verdict := func(fs *descriptorpb.FeatureSet) (bool, bool) {
+		if fs == nil || fs.Utf8Validation == nil {
+			return false, false
+		}
+		return fs.GetUtf8Validation() == descriptorpb.FeatureSet_VERIFY, true
+	}
+	if fo, ok := fd.Options().(*descriptorpb.FieldOptions); ok {
+		if v, set := verdict(fo.GetFeatures()); set {
+			return v
+		}
+	}
+	for d := fd.Parent(); d != nil; d = d.Parent() {
+		switch x := d.(type) {
+		case protoreflect.MessageDescriptor:
+			if mo, ok := x.Options().(*descriptorpb.MessageOptions); ok {
+				if v, set := verdict(mo.GetFeatures()); set {
+					return v
+				}
+			}
+		case protoreflect.FileDescriptor:
+			if fo, ok := x.Options().(*descriptorpb.FileOptions); ok {
+				if v, set := verdict(fo.GetFeatures()); set {
+					return v
+				}
+			}
+		}
+	}
+	return true
 }
